@@ -659,7 +659,7 @@ thread_local! {
 pub static HANGS: std::sync::atomic::AtomicUsize = std::sync::atomic::AtomicUsize::new(0);
 /// after this many calls that never returned the process stops executing further calls (each costs a watchdog
 /// period and a leaked thread); what was seen until then is reported
-pub const HANG_BUDGET: usize = 96;
+pub const HANG_BUDGET: usize = 150;
 /// the calls (operation + arguments) that hung
 pub static HUNG_CALLS: std::sync::Mutex<std::collections::BTreeSet<String>> = std::sync::Mutex::new(std::collections::BTreeSet::new());
 
